@@ -147,8 +147,32 @@ def state_cases(payload):
   return out
 
 
+def flat_cases(payload):
+  """flat dict first: unflatten_dict, then flatten_dict(keep_empty_nodes=True) of the result"""
+  out = []
+  for c in payload:
+    o = {}
+    for api, fl, un, empty in (('traverse_util', TU.flatten_dict, TU.unflatten_dict, TU.empty_node),
+                               ('nnx', NT.flatten_mapping, NT.unflatten_mapping, NT.empty_node)):
+      def go():
+        flat = {tuple(p): (empty if v == 'EMPTY' else v) for p, v in c['flat']}
+        snap = list(flat.items())
+        if c['sep'] is not None:
+          flat = {c['sep'].join(k): v for k, v in flat.items()}
+        t = un(flat, sep=c['sep'])
+        back = fl(t, keep_empty_nodes=True, sep=c['sep'])
+        back2 = fl(t, keep_empty_nodes=False, sep=c['sep'])
+        enc = lambda d: [[list(k) if isinstance(k, tuple) else k, enc_val(v)] for k, v in d.items()]
+        return {'tree': enc_tree(t), 'back': enc(back), 'back_noempty': enc(back2), 'flat_keys': [k if isinstance(k, str) else list(k) for k in flat]}
+      o[api] = safe(go)
+    out.append(o)
+  return out
+
+
 def main(payload):
   res = {}
+  if 'flats' in payload:
+    res['flats'] = flat_cases(payload['flats'])
   if 'dicts' in payload:
     res['dicts'] = dict_cases(payload['dicts'])
   if 'states' in payload:
